@@ -7,3 +7,4 @@ for p in $(/venv/bin/python -c "import sys; sys.path.insert(0,'/verif'); from si
   echo "$out" | grep -E "^\[|^VIOLATION|^HARNESS|^KNOWN" | cut -c1-220
   [ $rc -ne 0 ] && echo "   ^^^ exit=$rc"
 done
+exit 0
